@@ -428,7 +428,11 @@ func ParseRange(s string) (start, end int64, ok bool) {
 	}
 	p0, err0 := strconv.ParseInt(p0s, 10, 64)
 	p1, err1 := strconv.ParseInt(p1s, 10, 64)
-	if p1 > 0 {
+	if p0 > 0 || p1 > 0 {
+		// Note: "0-0" is ambiguous: RangeString uses it for the empty
+		// range at offset zero as well as for the single byte at offset zero.
+		// We choose the former here. An empty range at any other offset
+		// n is encoded as "n-(n-1)".
 		p1++
 	}
 	return p0, p1, err0 == nil && err1 == nil
